@@ -1,5 +1,6 @@
 #![allow(dead_code)]
 mod bigint;
+mod c05;
 mod c11;
 mod c12;
 mod gen;
@@ -43,8 +44,12 @@ fn main() {
         "selftest" => selftest::run(&cfg),
         "c12" => c12::run(&cfg),
         "c11" => c11::run(&cfg),
+        "c05" => c05::run(&cfg),
         "c02" => spl::run_c02(&cfg),
         "c03" => spl::run_c03(&cfg),
+        "c16" => spl::run_c16(&cfg),
+        "c07" => spl::run_c07(&cfg),
+        "c15" => spl::run_c15(&cfg),
         "c01" => lin::run_c01(&cfg),
         "c04" => lin::run_c04(&cfg),
         "c06" => lin::run_c06(&cfg),
